@@ -49,4 +49,189 @@ pub open spec fn is_canonical(s: Seq<Comp>) -> bool {
 // what `absolute(p)` must compute
 pub open spec fn abs_of<'a>(p: Seq<Comp<'a>>) -> Option<Seq<Comp<'a>>> { norm(join_comps(spec_cwd(), p)) }
 
+// left fold form of norm, convenient for concatenation
+pub open spec fn norm_fold<'a>(acc: Option<Seq<Comp<'a>>>, s: Seq<Comp<'a>>) -> Option<Seq<Comp<'a>>>
+    decreases s.len()
+{
+    if s.len() == 0 { acc } else { norm_fold(norm_step(acc, s[0]), s.drop_first()) }
+}
+
+pub proof fn lemma_fold_push<'a>(acc: Option<Seq<Comp<'a>>>, s: Seq<Comp<'a>>, c: Comp<'a>)
+    ensures norm_fold(acc, s.push(c)) == norm_step(norm_fold(acc, s), c)
+    decreases s.len()
+{
+    if s.len() == 0 {
+        assert(s.push(c).drop_first() =~= s);
+        assert(norm_fold(norm_step(acc, c), s.push(c).drop_first()) == norm_step(acc, c));
+    } else {
+        assert(s.push(c).drop_first() =~= s.drop_first().push(c));
+        lemma_fold_push(norm_step(acc, s[0]), s.drop_first(), c);
+    }
+}
+
+pub proof fn lemma_prefix_is_fold<'a>(s: Seq<Comp<'a>>, n: int)
+    requires 0 <= n <= s.len()
+    ensures norm_prefix(s, n) == norm_fold(Some(Seq::<Comp<'a>>::empty()), s.take(n))
+    decreases n
+{
+    if n > 0 {
+        lemma_prefix_is_fold(s, n - 1);
+        assert(s.take(n) =~= s.take(n - 1).push(s[n - 1]));
+        lemma_fold_push(Some(Seq::<Comp<'a>>::empty()), s.take(n - 1), s[n - 1]);
+    } else {
+        assert(s.take(0).len() == 0);
+    }
+}
+
+pub proof fn lemma_fold_concat<'a>(acc: Option<Seq<Comp<'a>>>, x: Seq<Comp<'a>>, y: Seq<Comp<'a>>)
+    ensures norm_fold(acc, x + y) == norm_fold(norm_fold(acc, x), y)
+    decreases x.len()
+{
+    if x.len() == 0 {
+        assert(x + y =~= y);
+    } else {
+        assert((x + y).drop_first() =~= x.drop_first() + y);
+        lemma_fold_concat(norm_step(acc, x[0]), x.drop_first(), y);
+    }
+}
+
+pub open spec fn parents<'a>(n: int) -> Seq<Comp<'a>> { Seq::new(n as nat, |k: int| Comp::ParentDir) }
+pub open spec fn all_normal(s: Seq<Comp>) -> bool { forall|k: int| 0 <= k < s.len() ==> #[trigger] s[k] is Normal }
+
+// folding normal components appends them
+pub proof fn lemma_fold_normals<'a>(out: Seq<Comp<'a>>, y: Seq<Comp<'a>>)
+    requires all_normal(y)
+    ensures norm_fold(Some(out), y) == Some(out + y)
+    decreases y.len()
+{
+    if y.len() == 0 { assert(out + y =~= out); }
+    else {
+        assert(y[0] is Normal);
+        assert(norm_step(Some(out), y[0]) == Some(out.push(y[0])));
+        lemma_fold_normals(out.push(y[0]), y.drop_first());
+        assert(out.push(y[0]) + y.drop_first() =~= out + y);
+    }
+}
+
+// folding m `..` removes m trailing normal components
+pub proof fn lemma_fold_parents<'a>(out: Seq<Comp<'a>>, m: int)
+    requires 0 <= m <= out.len(), all_normal(out.skip(out.len() - m))
+    ensures norm_fold(Some(out), parents(m)) == Some(out.take(out.len() - m))
+    decreases m
+{
+    if m == 0 { assert(out.take(out.len() as int) =~= out); }
+    else {
+        let p = parents::<'a>(m);
+        assert(p[0] is ParentDir);
+        assert(out.skip(out.len() - m)[m - 1] is Normal);
+        assert(out.last() is Normal);
+        assert(norm_step(Some(out), p[0]) == Some(out.drop_last()));
+        assert(p.drop_first() =~= parents::<'a>(m - 1));
+        let o2 = out.drop_last();
+        assert forall|k: int| 0 <= k < o2.skip(o2.len() - (m - 1)).len() implies #[trigger] o2.skip(o2.len() - (m - 1))[k] is Normal by {
+            assert(o2.skip(o2.len() - (m - 1))[k] == out.skip(out.len() - m)[k]);
+        }
+        lemma_fold_parents(o2, m - 1);
+        assert(o2.take(o2.len() - (m - 1)) =~= out.take(out.len() - m));
+    }
+}
+
+// k is the length of the longest common prefix of a and b
+pub open spec fn lcp_is(a: Seq<Comp>, b: Seq<Comp>, k: int) -> bool {
+    &&& 0 <= k <= a.len() && k <= b.len()
+    &&& a.take(k) == b.take(k)
+    &&& (k < a.len() && k < b.len() ==> a[k] != b[k])
+}
+pub open spec fn diff_of<'a>(a: Seq<Comp<'a>>, b: Seq<Comp<'a>>, k: int) -> Seq<Comp<'a>> { parents(b.len() - k) + a.skip(k) }
+
+// the law C08 needs: resolving the relative path against the base gives the target
+pub proof fn lemma_diff_resolves<'a>(a: Seq<Comp<'a>>, b: Seq<Comp<'a>>, k: int)
+    requires is_canonical(a), is_canonical(b), lcp_is(a, b, k), k >= 1
+    ensures norm(b + diff_of(a, b, k)) == Some(a)
+{
+    let s = b + diff_of(a, b, k);
+    lemma_prefix_is_fold(s, s.len() as int);
+    assert(s.take(s.len() as int) =~= s);
+    let e = Some(Seq::<Comp<'a>>::empty());
+    lemma_fold_concat(e, b, diff_of(a, b, k));
+    // fold over b: root then normals
+    assert(b =~= seq![b[0]] + b.skip(1));
+    lemma_fold_concat(e, seq![b[0]], b.skip(1));
+    assert(norm_fold(e, seq![b[0]]) == Some(seq![b[0]])) by {
+        let em = Seq::<Comp<'a>>::empty();
+        assert(seq![b[0]] =~= em.push(b[0]));
+        lemma_fold_push(e, em, b[0]);
+        assert(norm_fold(e, em) == e);
+        assert(b[0] is RootDir);
+        assert(norm_step(e, b[0]) == Some(em.push(b[0])));
+    }
+    assert(all_normal(b.skip(1)));
+    lemma_fold_normals(seq![b[0]], b.skip(1));
+    assert(norm_fold(e, b) == Some(b));
+    lemma_fold_concat(Some(b), parents(b.len() - k), a.skip(k));
+    assert(all_normal(b.skip(b.len() - (b.len() - k)))) by { assert(b.skip(b.len() - (b.len() - k)) =~= b.skip(k)); }
+    lemma_fold_parents(b, b.len() - k);
+    assert(b.take(b.len() - (b.len() - k)) =~= b.take(k));
+    assert(all_normal(a.skip(k)));
+    lemma_fold_normals(b.take(k), a.skip(k));
+    assert(a.take(k) + a.skip(k) =~= a);
+}
+
+// a relative path as diff_paths builds it: `..`s first, then normal components
+pub open spec fn rel_shape(s: Seq<Comp>) -> bool {
+    exists|m: int| 0 <= m <= s.len() && #[trigger] s.take(m) == parents(m) && all_normal(s.skip(m))
+}
+
+// length of the longest common prefix
+pub open spec fn lcp_len(a: Seq<Comp>, b: Seq<Comp>) -> int
+    decreases a.len()
+{
+    if a.len() > 0 && b.len() > 0 && a[0] == b[0] { 1 + lcp_len(a.drop_first(), b.drop_first()) } else { 0 }
+}
+pub proof fn lemma_lcp_len_is(a: Seq<Comp>, b: Seq<Comp>)
+    ensures lcp_is(a, b, lcp_len(a, b))
+    decreases a.len()
+{
+    if a.len() > 0 && b.len() > 0 && a[0] == b[0] {
+        let a1 = a.drop_first(); let b1 = b.drop_first();
+        lemma_lcp_len_is(a1, b1);
+        let k = lcp_len(a1, b1);
+        assert(a.take(k + 1) =~= seq![a[0]] + a1.take(k));
+        assert(b.take(k + 1) =~= seq![b[0]] + b1.take(k));
+        if k + 1 < a.len() && k + 1 < b.len() { assert(a[k + 1] == a1[k]); assert(b[k + 1] == b1[k]); }
+    } else {
+        assert(a.take(0) =~= b.take(0));
+    }
+}
+pub broadcast proof fn lemma_lcp_unique(a: Seq<Comp>, b: Seq<Comp>, j: int)
+    requires
+        0 <= j <= a.len(), j <= b.len(), #[trigger] a.take(j) == #[trigger] b.take(j),
+        j < a.len() && j < b.len() ==> a[j] != b[j],
+    ensures lcp_len(a, b) == j
+    decreases a.len()
+{
+    if j == 0 {
+    } else {
+        assert(a.take(j)[0] == a[0]);
+        assert(b.take(j)[0] == b[0]);
+        assert(a[0] == b[0]);
+        let a1 = a.drop_first(); let b1 = b.drop_first();
+        assert(a1.take(j - 1) =~= a.take(j).drop_first());
+        assert(b1.take(j - 1) =~= b.take(j).drop_first());
+        if j - 1 < a1.len() && j - 1 < b1.len() { assert(a1[j - 1] == a[j]); assert(b1[j - 1] == b[j]); }
+        lemma_lcp_unique(a1, b1, j - 1);
+    }
+}
+pub proof fn lemma_diff_shape<'a>(a: Seq<Comp<'a>>, b: Seq<Comp<'a>>, k: int)
+    requires is_canonical(a), is_canonical(b), lcp_is(a, b, k)
+    ensures k >= 1, rel_shape(diff_of(a, b, k)), comps_roundtrip(diff_of(a, b, k))
+{
+    if k == 0 { assert(a[0] is RootDir && b[0] is RootDir); assert(a[0] == b[0]); }
+    let d = diff_of(a, b, k);
+    let m = b.len() - k;
+    assert(d.take(m) =~= parents::<'a>(m));
+    assert(d.skip(m) =~= a.skip(k));
+    assert(all_normal(a.skip(k)));
+}
+
 } // verus!
